@@ -5,6 +5,7 @@
    applied to the ecdf itself; Proofs/Stacking.v: ecdf_at_ginv shows it is the generalised inverse). *)
 From Coq Require Import Reals Lra List Arith Lia Bool.
 From PUN Require Import Base.Num Base.Sort Model.Interval Model.Pbox Model.KS Proofs.ListR Proofs.PboxWF Proofs.WFExpr Proofs.KS.
+From PUN Require Import Proofs.CtorFinite.
 Import ListNotations.
 Open Scope R_scope.
 
@@ -95,7 +96,7 @@ Proof.
   { unfold r, interpolate_p. rewrite (nth_indep _ 0 (interp_next RN pb qb 0)) by (rewrite map_length; unfold p_values; rewrite linspace_length; exact Hk). rewrite map_nth. reflexivity. }
   pose proof (mk_total_wf steps plo phi false l r (L, R') E) as W. destruct W as [_ _ _ _ Wle]. cbn [fst snd] in Wle.
   assert (Hp : (L, R') = (l, r) \/ (L, R') = (r, l)).
-  { revert E. unfold mk_staircase, mk_staircase_gen, left_right_switch. destruct (all_ge RN l r).
+  { revert E. unfold mk_staircase; rewrite mk_gen_core_R; unfold mk_staircase_core, left_right_switch. destruct (all_ge RN l r).
     - rewrite !bound_steps_id by assumption. destruct (negb _); [discriminate|]. destruct (_ && _); [|discriminate].
       destruct (crosses _ _ _); [discriminate|]. intros A; inversion A; auto.
     - rewrite !bound_steps_id by assumption. destruct (negb _); [discriminate|]. destruct (_ && _); [|discriminate].
